@@ -154,10 +154,10 @@ Section Unary.
 
   (* ---------- the five constraints ---------- *)
   Theorem un_complete_sem :
-    irs_hold a (force_complete off (MUnary adj R)) = true <->
+    irs_hold a (vm_force_complete off (MUnary adj R)) = true <->
     forall i, 1 <= i <= L -> exists j, In j (m_range_of adj i) /\ rel a off adj i j = true.
   Proof.
-    cbn [force_complete m_domain mapping_shape]. rewrite irs_hold_map, forallb_forall. split.
+    cbn [vm_force_complete m_domain mapping_shape]. rewrite irs_hold_map, forallb_forall. split.
     - intros H i Hi. specialize (H i ltac:(apply in_zrange; subst L; lia)). cbn [ir_holds] in H.
       rewrite row_clause in H by exact Hi. now apply existsb_exists in H.
     - intros H i Hi. apply in_zrange in Hi. cbn [ir_holds]. rewrite row_clause by (subst L; lia).
@@ -165,11 +165,11 @@ Section Unary.
   Qed.
 
   Theorem un_functional_sem :
-    irs_hold a (force_functional off (MUnary adj R)) = true <->
+    irs_hold a (vm_force_functional off (MUnary adj R)) = true <->
     forall i, 1 <= i <= L -> forall j1 j2, In j1 (m_range_of adj i) -> In j2 (m_range_of adj i) ->
       rel a off adj i j1 = true -> rel a off adj i j2 = true -> j1 = j2.
   Proof.
-    cbn [force_functional m_domain mapping_shape]. rewrite irs_hold_map, forallb_forall. split.
+    cbn [vm_force_functional m_domain mapping_shape]. rewrite irs_hold_map, forallb_forall. split.
     - intros H i Hi. specialize (H i ltac:(apply in_zrange; subst L; lia)). cbn [ir_holds cop_holds] in H.
       rewrite row_count in H by exact Hi. apply Z.leb_le in H. now apply (cnt_le1 _ _ (NoDup_range_of i)).
     - intros H i Hi. apply in_zrange in Hi. cbn [ir_holds cop_holds]. rewrite row_count by (subst L; lia).
@@ -177,11 +177,11 @@ Section Unary.
   Qed.
 
   Theorem un_surjective_sem :
-    snd (force_surjective off (MUnary adj R)) = false /\
-    (irs_hold a (fst (force_surjective off (MUnary adj R))) = true <->
+    snd (vm_force_surjective off (MUnary adj R)) = false /\
+    (irs_hold a (fst (vm_force_surjective off (MUnary adj R))) = true <->
      forall j, 1 <= j <= R -> exists i, In j (m_range_of adj i) /\ rel a off adj i j = true).
   Proof.
-    split; [reflexivity|]. cbn [force_surjective fst m_range mapping_shape]. rewrite irs_hold_map, forallb_forall. split.
+    split; [reflexivity|]. cbn [vm_force_surjective fst m_range mapping_shape]. rewrite irs_hold_map, forallb_forall. split.
     - intros H j Hj. specialize (H j ltac:(apply in_zrange; lia)). cbn [ir_holds] in H.
       rewrite col_clause in H by exact Hj. apply existsb_exists in H as [i [Hi Hr]]. exists i. split; [now apply in_left_nbrs|exact Hr].
     - intros H j Hj. apply in_zrange in Hj. cbn [ir_holds]. rewrite col_clause by lia.
@@ -189,11 +189,11 @@ Section Unary.
   Qed.
 
   Theorem un_injective_sem :
-    irs_hold a (force_injective off (MUnary adj R)) = true <->
+    irs_hold a (vm_force_injective off (MUnary adj R)) = true <->
     forall j, 1 <= j <= R -> forall i1 i2, In j (m_range_of adj i1) -> In j (m_range_of adj i2) ->
       rel a off adj i1 j = true -> rel a off adj i2 j = true -> i1 = i2.
   Proof.
-    cbn [force_injective m_range mapping_shape]. rewrite irs_hold_map, forallb_forall.
+    cbn [vm_force_injective m_range mapping_shape]. rewrite irs_hold_map, forallb_forall.
     assert (ND : forall y, NoDup (left_nbrs adj y)) by (intros; apply NoDup_left_nbrs_from). split.
     - intros H j Hj i1 i2 H1 H2. specialize (H j ltac:(apply in_zrange; lia)). cbn [ir_holds cop_holds] in H.
       rewrite col_count in H by exact Hj. apply Z.leb_le in H. pose proof (proj1 (cnt_le1 (fun u => rel a off adj u j) _ (ND j)) H) as H'.
@@ -203,15 +203,15 @@ Section Unary.
   Qed.
 
   Theorem un_nondecreasing_sem :
-    irs_hold a (force_nondecreasing off (MUnary adj R)) = true <->
+    irs_hold a (vm_force_nondecreasing off (MUnary adj R)) = true <->
     forall i1 i2, 1 <= i1 < i2 /\ i2 <= L -> forall j1 j2, In j1 (m_range_of adj i1) -> In j2 (m_range_of adj i2) ->
       rel a off adj i1 j1 = true -> rel a off adj i2 j2 = true -> j1 <= j2.
   Proof.
-    cbn [force_nondecreasing m_domain mapping_shape]. rewrite irs_hold_flat_map, forallb_forall.
+    cbn [vm_force_nondecreasing m_domain mapping_shape]. rewrite irs_hold_flat_map, forallb_forall.
     assert (CL : forall u1 u2 v1 v2, In v1 (m_range_of adj u1) -> In v2 (m_range_of adj u2) ->
-       clause_sat a [- id_or_0 (to_id off (BipEdges adj R) [u1; v1]); - id_or_0 (to_id off (BipEdges adj R) [u2; v2])] =
+       clause_sat a [- id_or_0 (vg_to_id off (BipEdges adj R) [u1; v1]); - id_or_0 (vg_to_id off (BipEdges adj R) [u2; v2])] =
        negb (rel a off adj u1 v1 && rel a off adj u2 v2)).
-    { intros u1 u2 v1 v2 H1 H2. cbn [to_id shape_bip to_core]. fold (uid off adj u1 v1). fold (uid off adj u2 v2).
+    { intros u1 u2 v1 v2 H1 H2. cbn [vg_to_id shape_bip to_core]. fold (uid off adj u1 v1). fold (uid off adj u2 v2).
       destruct (rel_lit u1 v1 (row_edge _ _ H1)) as [E1 N1]. destruct (rel_lit u2 v2 (row_edge _ _ H2)) as [E2 N2].
       apply nonzero_spec in N1, N2. cbn [clause_sat existsb]. rewrite !lit_true_opp, E1, E2 by assumption.
       destruct (rel a off adj u1 v1), (rel a off adj u2 v2); reflexivity. }
@@ -242,22 +242,22 @@ Section Unary.
   Qed.
 
   Theorem un_constraints_ok :
-    irs_ok (force_complete off (MUnary adj R)) = true /\ irs_ok (force_functional off (MUnary adj R)) = true /\
-    irs_ok (fst (force_surjective off (MUnary adj R))) = true /\ irs_ok (force_injective off (MUnary adj R)) = true /\
-    irs_ok (force_nondecreasing off (MUnary adj R)) = true.
+    irs_ok (vm_force_complete off (MUnary adj R)) = true /\ irs_ok (vm_force_functional off (MUnary adj R)) = true /\
+    irs_ok (fst (vm_force_surjective off (MUnary adj R))) = true /\ irs_ok (vm_force_injective off (MUnary adj R)) = true /\
+    irs_ok (vm_force_nondecreasing off (MUnary adj R)) = true.
   Proof.
     repeat split.
-    - cbn [force_complete m_domain mapping_shape]. rewrite irs_ok_map. apply forallb_forall. intros x Hx. apply in_zrange in Hx.
+    - cbn [vm_force_complete m_domain mapping_shape]. rewrite irs_ok_map. apply forallb_forall. intros x Hx. apply in_zrange in Hx.
       apply lits_ok_row. subst L. lia.
-    - cbn [force_functional m_domain mapping_shape]. rewrite irs_ok_map. apply forallb_forall. intros x Hx. apply in_zrange in Hx.
+    - cbn [vm_force_functional m_domain mapping_shape]. rewrite irs_ok_map. apply forallb_forall. intros x Hx. apply in_zrange in Hx.
       apply lits_ok_row. subst L. lia.
-    - cbn [force_surjective fst m_range mapping_shape]. rewrite irs_ok_map. apply forallb_forall. intros y Hy. apply in_zrange in Hy.
+    - cbn [vm_force_surjective fst m_range mapping_shape]. rewrite irs_ok_map. apply forallb_forall. intros y Hy. apply in_zrange in Hy.
       apply lits_ok_col. lia.
-    - cbn [force_injective m_range mapping_shape]. rewrite irs_ok_map. apply forallb_forall. intros y Hy. apply in_zrange in Hy.
+    - cbn [vm_force_injective m_range mapping_shape]. rewrite irs_ok_map. apply forallb_forall. intros y Hy. apply in_zrange in Hy.
       apply lits_ok_col. lia.
-    - cbn [force_nondecreasing m_domain mapping_shape]. rewrite irs_ok_flat_map. apply forallb_forall. intros [u1 u2] _. cbn [fst snd].
+    - cbn [vm_force_nondecreasing m_domain mapping_shape]. rewrite irs_ok_flat_map. apply forallb_forall. intros [u1 u2] _. cbn [fst snd].
       rewrite irs_ok_flat_map. apply forallb_forall. intros v1 H1. rewrite irs_ok_flat_map. apply forallb_forall. intros v2 H2.
-      destruct (v1 >? v2); [|reflexivity]. unfold irs_ok, ir_ok. cbn [forallb ir_lits lits_ok to_id shape_bip to_core].
+      destruct (v1 >? v2); [|reflexivity]. unfold irs_ok, ir_ok. cbn [forallb ir_lits lits_ok vg_to_id shape_bip to_core].
       fold (uid off adj u1 v1). fold (uid off adj u2 v2).
       destruct (rel_lit u1 v1 (row_edge _ _ H1)) as [_ N1]. destruct (rel_lit u2 v2 (row_edge _ _ H2)) as [_ N2].
       apply nonzero_spec in N1, N2. rewrite !andb_true_r. apply andb_true_iff. split; apply nonzero_spec; lia.
@@ -274,17 +274,17 @@ Proof. intros H. unfold len, complete_adj. rewrite repeat_length. lia. Qed.
 
 (* ---------- statements in the form quoted by Prop_C04_mapping.v ---------- *)
 Lemma un_ok off adj R : 0 <= off -> adj_nodup adj ->
-  irs_ok (force_complete off (MUnary adj R)) = true /\ irs_ok (force_functional off (MUnary adj R)) = true /\
-  irs_ok (fst (force_surjective off (MUnary adj R))) = true /\ irs_ok (force_injective off (MUnary adj R)) = true /\
-  irs_ok (force_nondecreasing off (MUnary adj R)) = true.
+  irs_ok (vm_force_complete off (MUnary adj R)) = true /\ irs_ok (vm_force_functional off (MUnary adj R)) = true /\
+  irs_ok (fst (vm_force_surjective off (MUnary adj R))) = true /\ irs_ok (vm_force_injective off (MUnary adj R)) = true /\
+  irs_ok (vm_force_nondecreasing off (MUnary adj R)) = true.
 Proof. exact (un_constraints_ok (fun _ => true) off adj R). Qed.
 
 Lemma bin_ok off n m : 0 <= off -> 1 <= m ->
-  irs_ok (force_complete off (MBinary n m)) = true /\ irs_ok (force_injective off (MBinary n m)) = true /\
-  irs_ok (force_nondecreasing off (MBinary n m)) = true.
+  irs_ok (vm_force_complete off (MBinary n m)) = true /\ irs_ok (vm_force_injective off (MBinary n m)) = true /\
+  irs_ok (vm_force_nondecreasing off (MBinary n m)) = true.
 Proof. exact (bin_constraints_ok (fun _ => true) off n m). Qed.
 
-Lemma bin_surjective_always_raises off n m : 1 <= m -> snd (force_surjective off (MBinary n m)) = true.
+Lemma bin_surjective_always_raises off n m : 1 <= m -> snd (vm_force_surjective off (MBinary n m)) = true.
 Proof. exact (bin_surjective_raises (fun _ => true) off n m). Qed.
 
 Theorem mapping_transfer a l : irs_ok l = true ->
